@@ -4,6 +4,7 @@ The peer is a raw-mode sink / cat that reports exactly what it received; the
 driver performs a seeded history of send-family calls interleaved with reads.
 """
 import codecs
+import socket as _socket
 
 from . import harness
 from . import peers
@@ -136,6 +137,34 @@ def generate(rng, prop='C08'):
             op['nodata'] = True
         ops.append(op)
     ops.append({'op': 'drain', 'to': 0.02})
+    big = None
+    if tr == 'pty' and rng.random() < 0.15:
+        # fault configuration: a blocking write to the pty is cut short (a signal arrives after part of a long string was
+        # taken).  Judged per call with a deliberately relaxed oracle: the peer gets a PREFIX of what the call was asked to
+        # send, send()/sendline() return exactly the number of bytes that arrived, never anything else
+        scn['short_writes'] = [rng.choice([0, 1, 2, 3, 7, 100, 1000]) for _ in range(rng.randint(1, 4))]
+        scn['echo'] = False      # an echo of a truncated character is not decodable text: nothing to read back
+        big = rng.choice([30, 300, 3000])
+    elif tr == 'sock' and rng.random() < 0.2:
+        # fault configuration: the application gave its socket a timeout and the peer stops reading, so a large
+        # sendall() gives up after part of the data was delivered.  The failed call was still ASKED to send its argument
+        scn['send_fail'] = {'stall_after': rng.choice([0, 10, 1000]), 'sock_timeout': rng.choice([0.001, 0.01])}
+        scn['in_cap'] = rng.choice([16, 64, 512])
+        scn['echo'] = False
+        big = rng.choice([3000, 6000])
+    if big:
+        mode = 'bytes' if enc is None else 'text'
+        d = u''
+        while len(d) < big:
+            d += gen_payload(rng, mode, enc) or u'x'
+        ops = [op if op['op'] != 'writelines' else dict(op, op='write', d=''.join(op['d'])) for op in ops]
+        ops.insert(rng.randint(0, len(ops) - 1), {'op': rng.choice(['send', 'send', 'sendline', 'write']), 'd': d})
+    if tr in ('pty', 'fd') and rng.random() < 0.2:
+        # some reads are awaited (asyncio protocol path: data_received decodes and logs), mixed with blocking ones
+        for op in ops:
+            if op['op'] == 'drain' and rng.random() < 0.7:
+                op['op'] = 'adrain'
+                op['to'] = rng.choice([0, 0, 0.001, 0.01, 0.02])
     scn['ops'] = ops
     return scn
 
@@ -170,10 +199,17 @@ def run(scn, prop=None):
         elif tr in ('fd', 'sock'):
             a, bb = k.socketpair(cap, 1 << 20)
             r.sock_end = bb
-            peer = peers.Actor(w, k, None, peers.sink(bb, received, bb if echo else None, 4096, 'pause', delay), react, 'peer')
+            r.child_end = a
+            sf = scn.get('send_fail')
+            if sf and tr != 'sock':
+                raise HarnessError('send_fail is a socket configuration')
+            peer = peers.Actor(w, k, None, peers.sink(bb, received, bb if echo else None, 4096, 'pause', delay,
+                                                      stall_after=sf['stall_after'] if sf else None), react, 'peer')
             peer.start(0)
             if tr == 'sock':
                 r.sock = shim.FakeSocket(a)
+                if sf:
+                    r.sock.settimeout(sf['sock_timeout'])
                 child = T.SimSocketSpawn(r.sock, **kw)
             else:
                 fd = k.alloc_fd(a)
@@ -189,10 +225,18 @@ def run(scn, prop=None):
                 peer = peers.Actor(w, k, proc, peers.sink(in_r, received, out_w if echo else None, 4096, 'exit', delay), react, 'child')
                 peer.start(0)
                 r.popen_inpipe = in_r.p
+                r.popen_outpipe = out_r.p
                 return proc, in_w, out_r
             w.popen_setup = setup
             child = T.SimPopenSpawn(['simcat'], **kw)
         r.child = child
+        shorts = bool(scn.get('short_writes'))
+        if shorts:
+            if tr != 'pty' or scn.get('echo'):
+                raise HarnessError('short writes are a configuration of the pty transport with a non-echoing peer')
+            if any(op['op'] == 'writelines' for op in scn['ops']):
+                raise HarnessError('writelines is not judged under short writes')
+            w.short_fd = child.child_fd
         for attr in ('delaybeforesend', 'delayafterread'):
             if attr in scn:
                 setattr(child, attr, scn[attr])
@@ -209,6 +253,7 @@ def run(scn, prop=None):
         events = []                 # merged transcript for `logfile`: ('s'|'r', text)
         out = []
         closed_stdin = False
+        ended = False
 
         def enc_native(x):
             """x: value handed to send(); returns (logged_value, bytes_on_wire)."""
@@ -221,6 +266,40 @@ def run(scn, prop=None):
             detail.update(transport=tr, enc=enc)
             out.append(Violation(clause, msg, None, detail))
 
+        def wire_bytes():
+            """Kernel truth: every byte the code under test has written towards the peer so far."""
+            if tr == 'pty':
+                return bytes(r.pty.in_log)
+            if tr == 'popen':
+                return bytes(r.popen_inpipe.log)
+            return bytes(inlog.log)
+
+        def wire_len():
+            return len(wire_bytes())
+
+        aio = {'loop': None, 'await': False}
+        if any(op['op'] == 'adrain' for op in scn['ops']):
+            if tr not in ('pty', 'fd'):
+                raise HarnessError('awaited reads are generated for pty and fd transports only')
+            from . import aioloop
+            aioloop.install()
+            aio['loop'] = aioloop.SimLoop()
+            aio['loop'].set_exception_handler(lambda lp, ctx: None)
+            orig_log = child._log
+
+            def logged(s_, direction):
+                # the asyncio transport's deliveries do not pass through read_nonblocking: record them here
+                if direction == 'read' and aio['await']:
+                    child.chunks.append(s_)
+                return orig_log(s_, direction)
+            child._log = logged
+
+        async def adrain(to):
+            try:
+                await child.expect([TIMEOUT], timeout=to, async_=True)
+            except EOF:
+                return 'eof'
+
         for kx, op in enumerate(scn['ops']):
             kind = op['op']
             w.begin_op(kx)
@@ -229,29 +308,60 @@ def run(scn, prop=None):
             try:
                 if kind == 'gap':
                     w.sleep(op['dt'])
+                elif kind == 'adrain':
+                    aio['await'] = True
+                    try:
+                        if aio['loop'].run_until_complete(adrain(op.get('to', 0.001))) == 'eof':
+                            ended = True
+                    finally:
+                        aio['await'] = False
+                    w.probe('awaited_read_in_send_log_history')
                 elif kind == 'drain':
                     try:
                         child.expect(TIMEOUT if True else EOF, timeout=op.get('to', 0))
                     except EOF:
                         pass
                 elif kind in ('send', 'write', 'sendline'):
-                    if op.get('nodata'):
-                        x = st()
-                        ret = child.sendline()
-                    else:
-                        x = r.sconv(op['d'], op.get('as'))
-                        ret = getattr(child, kind)(x)
+                    if not op.get('nodata') and 'd' not in op:
+                        raise HarnessError('send op without data')
+                    x = st() if op.get('nodata') else r.sconv(op['d'], op.get('as'))
                     lv, bx = enc_native(x)
                     if kind == 'sendline':
                         lsep = child.linesep
                         l2, b2 = enc_native(lsep)
                         lv, bx = lv + l2, bx + b2
-                    expected += bx
+                    # asked to send: belongs in the send log whatever becomes of the write
                     sendlog.append(lv)
                     events.append(('s', lv))
-                    if kind in ('send', 'sendline') and ret != len(bx):
-                        V('C08.return', '%s returned %r, %d bytes were to be written' % (kind, ret, len(bx)), op=kx)
-                    if kind == 'write' and ret is not None:
+                    l0 = wire_len()
+                    failed = None
+                    try:
+                        ret = child.sendline() if op.get('nodata') else getattr(child, kind)(x)
+                    except (OSError, _socket.timeout) as e:
+                        if not (scn.get('send_fail') and isinstance(e, (_socket.timeout, TimeoutError))):
+                            expected += bx
+                            raise
+                        failed = e
+                        w.probe('sendall_gave_up_midway')
+                    delta = wire_bytes()[l0:]
+                    if failed is not None or shorts:
+                        # fault configurations: the peer holds a prefix of what this call was asked to send, never anything else
+                        expected += delta
+                        if bx[:len(delta)] != delta:
+                            V('C08.bytes', '%s under %s: the peer received bytes that are not a prefix of the encoded argument'
+                              % (kind, 'a failing sendall' if failed is not None else 'a short write'), op=kx,
+                              got=delta[:80], want=bx[:80])
+                        elif failed is None and kind in ('send', 'sendline') and ret != len(delta):
+                            V('C08.return', '%s returned %r but %d bytes reached the peer' % (kind, ret, len(delta)), op=kx)
+                        if failed is None and len(delta) < len(bx):
+                            w.probe('short_write_truncated_a_send')
+                        if failed is not None:
+                            ended = True
+                    else:
+                        expected += bx
+                        if kind in ('send', 'sendline') and ret != len(bx):
+                            V('C08.return', '%s returned %r, %d bytes were to be written' % (kind, ret, len(bx)), op=kx)
+                    if kind == 'write' and failed is None and ret is not None:
                         V('C08.return', 'write returned %r' % (ret,), op=kx)
                 elif kind == 'writelines':
                     xs = [r.sconv(x, op.get('as')) for x in op['d']]
@@ -290,26 +400,55 @@ def run(scn, prop=None):
             for c in child.chunks[c0:]:
                 if len(c):
                     events.append(('r', c))
+            if ended:
+                break       # asyncio closed the object at end of stream
+        if aio['loop'] is not None:
+            aio['loop'].detach_all()
+            try:
+                aio['loop'].close()
+            except Exception:
+                pass
         # let the peer finish reading what is in flight
         try:
             w.sleep(200000)
         except SimHang:
             pass
         got = b''.join(received)
-        if tr == 'pty':
-            wire = bytes(r.pty.in_log)
-        elif tr == 'popen':
-            wire = bytes(r.popen_inpipe.log)
-        else:
-            wire = bytes(inlog.log)
+        wire = wire_bytes()
         if not any(v.clause in ('C08.hang', 'C08.exception') for v in out):
             if wire != bytes(expected):
                 V('C08.bytes', 'bytes written to the peer differ from the encoded arguments in call order',
                   got=wire, want=bytes(expected))
-            elif got != bytes(expected):
+            elif got != bytes(expected) and not (scn.get('send_fail') and bytes(expected).startswith(got)):
                 V('C08.bytes', 'bytes the peer read differ from what was sent', got=got, want=bytes(expected))
             # ---- C11
             want_read = [c for c in child.chunks if len(c)]
+            # kernel truth: the text logged as read is the decoding of the bytes taken from the descriptor (for the
+            # piped subprocess the reader thread may have taken more than the caller has been handed: prefix)
+            if tr == 'pty':
+                taken = bytes(r.pty.out_log[:len(r.pty.out_log) - len(r.pty.out)])
+            elif tr in ('fd', 'sock'):
+                rx = r.child_end.rx
+                taken = bytes(rx.log[:len(rx.log) - len(rx.buf)])
+            else:
+                pp = r.popen_outpipe
+                taken = bytes(pp.log[:len(pp.log) - len(pp.buf)])
+            try:
+                truth = taken if enc is None else codecs.getincrementaldecoder(enc)(scn.get('errors', 'strict')).decode(taken, False)
+            except UnicodeError:
+                truth = None
+            if truth is not None and aio['loop'] is not None and logs and st().join(want_read) != truth:
+                # in a history with awaited reads the chunk list is what reached _log(..., 'read'): anything the protocol
+                # took from the descriptor without logging it shows up here, whichever log file is set
+                V('C11.read_truth', 'text logged as read is not the decoding of the bytes read from the transport',
+                  got=st().join(want_read)[-60:], want=truth[-60:], awaited=True)
+            elif truth is not None and 'logfile_read' in logs:
+                ws = logs['logfile_read'].writes()
+                if all(type(x) is st for x in ws):
+                    text = st().join(ws)
+                    if (not truth.startswith(text)) if tr == 'popen' else (text != truth):
+                        V('C11.read_truth', 'logfile_read is not the decoding of the bytes read from the transport',
+                          got=text[-60:], want=truth[-60:], awaited=aio['loop'] is not None)
             for name, lg in logs.items():
                 ws = [x for x in lg.writes()]
                 bad = [type(x).__name__ for x in ws if type(x) is not st]
